@@ -9,11 +9,13 @@ Proof. reflexivity. Qed.
 
 Definition mkcall0 (w c : list key) (bs : list bdecl) : call := {| c_write_to := w; c_controls := c; c_branches := bs |}.
 
-(* F-C19b (corpus 05): START has an edge to 2 and a multi-branch {END, 2} that selects END only: 2 is
-   skipped by reportBranch, the copy written to its channel by the edge is dropped *)
+(* F-C19b (corpus 09 shape): START has a data-only edge to 2 and a branch {END, 2} that selects END
+   only: 2 is skipped by reportBranch, the copy written to its channel by the data edge is dropped.
+   (Since 665541a a direct control successor is no longer reported as skipped, so the original
+   witness — an ordinary edge and a branch to the same node, corpus 05 — now runs the node.) *)
 Definition ex_f19b : graph :=
   {| g_dag := true; g_eager := false;
-     g_calls := [ (0, mkcall0 [2] [2] [ {| bd_nodata := false; bd_ends := [1; 2] |} ]); (2, mkcall0 [1] [1] []) ] |}.
+     g_calls := [ (0, mkcall0 [2] [] [ {| bd_nodata := true; bd_ends := [1; 2] |} ]); (2, mkcall0 [1] [1] []) ] |}.
 Definition ex_f19b_sched : list batch := [ [(0, [[1]])] ].
 
 Definition open_of (o : res outcome) : res (handle * list handle * bool) :=
